@@ -36,7 +36,20 @@ func (h *Hub) HandleConnectionClosed(connection api.ShipConnectionInterface, han
 		}
 	}
 
-	h.hubReader.RemoteSKIDisconnected(connection.RemoteSKI())
+	// With double connections the end of a connection is not always a disconnect of the SKI:
+	// if the application was already handed another connection of this SKI, that one is
+	// the connection the application uses and this one ending is of no interest to it
+	h.muxCon.Lock()
+	setupC, isSetup := h.setupConnections[remoteSki]
+	isReplaced := isSetup && setupC != any(connection)
+	if isSetup && !isReplaced {
+		delete(h.setupConnections, remoteSki)
+	}
+	h.muxCon.Unlock()
+
+	if !isReplaced {
+		h.hubReader.RemoteSKIDisconnected(connection.RemoteSKI())
+	}
 
 	// Do not automatically reconnect if handshake failed and not already paired
 	remoteService := h.ServiceForSKI(connection.RemoteSKI())
@@ -107,5 +120,10 @@ func (h *Hub) HandleShipHandshakeStateUpdate(ski string, state model.ShipState) 
 
 // report an approved handshake by a remote device
 func (h *Hub) SetupRemoteDevice(ski string, writeI api.ShipConnectionDataWriterInterface) api.ShipConnectionDataReaderInterface {
+	// remember which connection the application uses for this SKI from now on
+	h.muxCon.Lock()
+	h.setupConnections[ski] = any(writeI)
+	h.muxCon.Unlock()
+
 	return h.hubReader.SetupRemoteDevice(ski, writeI)
 }
